@@ -207,6 +207,21 @@ func (t *pfTr) builtinCall(x *ast.CallExpr, name string, en pfEnv, one func(stri
 		if len(x.Args) == 1 && t.kindOf(x.Args[0]) == "list" {
 			return t.expr(x.Args[0], en, "", func(a string) string { return one("(zlen " + a + ")") })
 		}
+		// len(b.Text(10)) for a *big.Int b: the number of characters of its decimal representation
+		if len(x.Args) == 1 {
+			if c, ok := ast.Unparen(x.Args[0]).(*ast.CallExpr); ok && len(c.Args) == 1 {
+				if sel, ok := c.Fun.(*ast.SelectorExpr); ok && sel.Sel.Name == "Text" && t.kindOf(sel.X) == "big" {
+					if base, ok := t.constOf(c.Args[0]); ok && base == "10" {
+						return t.expr(sel.X, en, "", func(a string) string {
+							if pfOpaque(a) {
+								return t.unrec(x, "Text of an untranslated value")
+							}
+							return one("(dec_text_len " + a + ")")
+						})
+					}
+				}
+			}
+		}
 	case "append":
 		if len(x.Args) >= 1 && t.kindOf(x.Args[0]) == "list" && t.sliceOK[x] {
 			for _, a := range x.Args[1:] {
@@ -244,6 +259,39 @@ func pfSliceTyped(tp types.Type) bool {
 	return false
 }
 
+// pfBigTyped: a *big.Int
+func pfBigTyped(tp types.Type) bool { return tp != nil && pfKind(tp) == "big" }
+
+// bigExpStmt: the statement  z.Exp(z, y, nil)  on a local *big.Int variable z that is not a parameter:
+// z = z**y, or 1 when y <= 0 (math/big int.go:554).  Pointers to big.Int are only translated while
+// they cannot be shared: a *big.Int variable is only ever assigned from a call that allocates
+// (big.NewInt, Int.BigInt) - see sliceCopy - and this is the only mutation.
+func (t *pfTr) bigExpStmt(c *ast.CallExpr, en pfEnv, k func(pfEnv) string) (string, bool) {
+	sel, ok := c.Fun.(*ast.SelectorExpr)
+	if !ok || sel.Sel.Name != "Exp" || t.kindOf(sel.X) != "big" {
+		return "", false
+	}
+	z, ok := ast.Unparen(sel.X).(*ast.Ident)
+	if !ok || len(c.Args) != 3 || !t.sameLvalue(z, c.Args[0]) || t.rootIsParam(z) || t.kindOf(c.Args[1]) != "big" {
+		return t.unrec(c, "big.Int.Exp that is not  z.Exp(z, y, nil)  on a local variable"), true
+	}
+	if id, ok := ast.Unparen(c.Args[2]).(*ast.Ident); !ok || id.Name != "nil" {
+		return t.unrec(c, "big.Int.Exp with a modulus"), true
+	}
+	if t.loop > 0 || t.closure > 0 {
+		return t.unrec(c, "big.Int.Exp inside a loop or closure"), true
+	}
+	return t.expr(z, en, "", func(a string) string {
+		return t.expr(c.Args[1], en, "", func(y string) string {
+			if pfOpaque(a) || pfOpaque(y) {
+				return t.unrec(c, "big.Int.Exp on an untranslated value")
+			}
+			n := t.fresh(z.Name)
+			return "let " + n + " := (big_exp " + a + " " + y + ") in\n" + k(en.with(t.objOf(z), n))
+		})
+	}), true
+}
+
 // sliceCopy: value semantics for slices is only right while no two live variables share a backing
 // array that one of them changes (s[i] = v, append in place).  Hence: a slice (or a struct holding
 // one) may be assigned only from a call (fresh: store read, translated function), a literal, nil,
@@ -254,6 +302,13 @@ func (t *pfTr) sliceCopy(x *ast.AssignStmt) string {
 		return "" // a, b = f(): results of a call are fresh
 	}
 	for i, r := range x.Rhs {
+		if pfBigTyped(t.pkg.TypesInfo.TypeOf(r)) {
+			// a *big.Int may only come from a call (an allocation): no second pointer to the same number
+			if _, ok := ast.Unparen(r).(*ast.CallExpr); ok {
+				continue
+			}
+			return "copy of a *big.Int pointer (aliasing)"
+		}
 		if !pfSliceTyped(t.pkg.TypesInfo.TypeOf(r)) {
 			continue
 		}
